@@ -26,15 +26,15 @@ META = {
             "§4 C09"),
     "C10": ("differential PBT: generated update requests x datasets x configurations vs a reference SPARQL Update dataset transformer",
             "§4 C10"),
-    "C11": ("differential PBT: generated path expressions x graphs x 4 end bindings (API and SPARQL) vs set-algebra reference; duplicates and termination checked",
+    "C11": ("differential PBT: generated path expressions x graphs (plain, Dataset union, aggregate) x 4 end bindings (API and SPARQL) vs set-algebra reference; duplicates, termination and re-evaluation of held path / query objects after a change checked",
             "§4 C11"),
     "C12": ("PBT over parse histories: old content preserved, new content = document with fresh injective blank nodes (isomorphism oracle)",
             "§4 C12"),
-    "C13": ("PBT over sequences of read-only calls: store snapshot invariant after each call + repeatability of each answer",
+    "C13": ("PBT over sequences of read-only calls (incl. held path and prepared query objects) on Graph / Dataset / ConjunctiveGraph: store snapshot invariant after each call + repeatability of each answer",
             "§4 C13"),
-    "C14": ("PBT over symmetric blank-node families and near-miss pairs vs an independent backtracking bijection search",
+    "C14": ("PBT over symmetric blank-node families (one and two relations), relabelled copies and near-miss pairs vs an independent backtracking bijection search; skolem round trip of up to 400 blank nodes checked by the nodes' own labels",
             "§4 C14"),
-    "C15": ("metamorphic PBT: query vs semantics-preserving rewrite, initBindings vs VALUES, prepared-query reuse, store back ends",
+    "C15": ("metamorphic PBT: query vs semantics-preserving rewrite (order, association, renaming, spelling), initBindings vs VALUES, prepared-query reuse incl. interleaved evaluations, store back ends incl. quads behind the auditable store",
             "§4 C15"),
     "C16": ("round-trip PBT over generated result tables x JSON/XML/TSV/CSV with independent stdlib readers and a W3C TSV writer",
             "§4 C16"),
